@@ -39,7 +39,7 @@ func c10Gen(rng *verifsim.RNG, idx int, tier string) *Plan {
 		p.Actions = append(p.Actions, rsAction(f-int64(rng.Dur(0, 400*time.Millisecond)), hostAddr(1)))
 	}
 
-	kinds := []string{"read-recoverable", "read-permission", "read-opaque", "timeouts", "write", "link", "fwd", "handler", "write-initial", "write-final", "write-inflight+link"}
+	kinds := []string{"read-recoverable", "read-permission", "read-opaque", "timeouts", "write", "link", "fwd", "handler", "write-initial", "write-final", "write-inflight+link", "recreate"}
 	if monitor {
 		kinds = []string{"read-recoverable", "read-permission", "read-opaque", "timeouts", "link"}
 	}
@@ -74,6 +74,22 @@ func c10Gen(rng *verifsim.RNG, idx int, tier string) *Plan {
 			Err: []string{"ENOBUFS", "ENETDOWN", "EINVAL"}[rng.Intn(3)]})
 		p.Actions = append(p.Actions, rsAction(f+1000, hostAddr(0)), rsAction(f+2000, "::"),
 			Action{At: f + 600*nsMs + lat/2, Kind: "link", If: "eth0", Oper: "down"})
+	case "recreate":
+		// the interface is deleted and re-created under its name (new index, new
+		// addresses) and the link event follows: a recoverable cause, whatever
+		// the configuration reads from the interface (automatic prefix, :: RDNSS)
+		s := &p.Nodes[0].Config.Interfaces[0]
+		s.Prefixes = append(s.Prefixes, PrefixSpec{Prefix: sp("::/64")})
+		if rng.Bool(0.5) {
+			s.RDNSS = append(s.RDNSS, RDNSSSpec{Servers: []string{"::"}})
+		}
+		iw := &p.Nodes[0].Ifaces[0]
+		iw.Addrs = pickAddrs(rng, iw.LL, 5)
+		a := Action{At: f - 50, Kind: "reindex", If: "eth0", N: 100 + rng.Intn(800)}
+		if rng.Bool(0.5) {
+			a.Addrs = []AddrW{{CIDR: "2001:db8:ffff::1/64"}, {CIDR: "fd00:ffff::1/64", Forever: true}}
+		}
+		p.Actions = append(p.Actions, a, Action{At: f, Kind: "link", If: "eth0", Oper: "down"})
 	case "link":
 		p.Actions = append(p.Actions, Action{At: f, Kind: "link", If: "eth0", Oper: []string{"down", "down", "up", "dormant"}[rng.Intn(4)]})
 	case "fwd":
@@ -259,6 +275,11 @@ func c10Oracle(info *runInfo, res *verifsim.Result) {
 	}
 	if fault.K == "fwd.exit" {
 		cls = "" // a failing sysctl read: the statement does not classify it
+	}
+	if (kind == "link" || kind == "recreate") && ended && info.plan.Opt["redial_failures"] < 50 {
+		// nothing was made to fail in this run: a link event (with or without the
+		// interface having been re-created) is all that happened
+		res.Violate("C10.classify", "recoverable-fatal:"+kind, "%s: the task ended at %s (%s) although the only thing that happened was a recoverable link event at %s", ifn, ms(exit.T), exitErr(exit), ms(fault.T))
 	}
 	switch cls {
 	case "recoverable":
